@@ -33,6 +33,13 @@ func (s *Session) builtin(fr *Frame, b *ssa.Builtin, cc *ssa.CallCommon, args []
 			card := s.heapGet(st, cardN, arrSort(SInt))
 			r := s.define("maplen", Ite(Eq(a.T0(), I(0)), I(0), Select(card, a.T0())))
 			s.assume(Ge(r, I(0)))
+			// a map of length 0 has no keys
+			domN, _, _, _, _ := s.mapHeaps(st, ut)
+			dom := s.heapGet(st, domN, arrSort(arrSort(SBool)))
+			s.nfresh++
+			k := fmt.Sprintf("mk!%d", s.nfresh)
+			row := Select(dom, a.T0())
+			s.assume(Imp(st.Reach, T{fmt.Sprintf("(forall ((%s Int)) (! (=> (= %s 0) (not (select %s %s))) :pattern ((select %s %s))))", k, r.S, row.S, k, row.S, k), SBool}))
 			return scalar(types.Typ[types.Int], r)
 		case *types.Array:
 			return scalar(types.Typ[types.Int], I(ut.Len()))
